@@ -1,10 +1,10 @@
 package main
 
 import (
-	"strconv"
-	"strings"
 	"fmt"
 	"math"
+	"strconv"
+	"strings"
 	"time"
 
 	"github.com/pip-services3-gox/pip-services3-expressions-gox/variants"
